@@ -288,7 +288,7 @@ BINOPS30 = ['||', '!']
 HUGE = {BIG, '9223372036854775808', '1' + '0' * 40, '1e308', 'xs:integer("-9223372036854775809")', '1 div 0e0', 'xs:double("INF")'}
 
 FUNC_ARGS = ['()', '0', '-1', '2', '1.5', '1e0', 'xs:double("NaN")', "''", "'a'", "'http://[x'", '(1, 2)', 'xs:date("2000-01-01")', 'xs:dayTimeDuration("PT0S")', 'true()',
-             '/', '//b', '@id', 'xs:untypedAtomic("x")', 'xs:QName("p:a")', '9223372036854775808', BIG, "'\\'", "'[Y]'", "'(a'"]
+             '/', '//b', '@id', 'xs:untypedAtomic("x")', 'xs:QName("p:a")', '9223372036854775808', BIG, "'\\'", "'[Y]'", "'(a'", '(%s, 1e0)' % BIG, '(1.5, %s)' % BIG, '(xs:float("INF"), xs:double("-INF"), 1)']
 FUNC_ARGS31 = ['map { "a" : 1 }', '[ 1 , 2 ]', 'abs#1', 'function ( $x , $y ) { $x }']
 FUNC_ARGS3 = ['()', '0', "'a'", '(1, 2)', '/', 'true()', "''"]
 NS_PREFIX = {'http://www.w3.org/2005/xpath-functions/math': 'math', 'http://www.w3.org/2005/xpath-functions/map': 'map',
